@@ -9,7 +9,9 @@ Trace acceptor for C17 (`ekit.AnyValue`). Producer of the lines: harness/value/m
     <X>OrDefault <value>           => ok:<value>
     JSONScan <target#>             => ok:<json> | err:<kind>                    ju=<oracle>
 
-`<held>` is `nil`, `int8:-128`, `Nint8:5` (a defined type with underlying int8), `f32:<hex bits>`,
+`<held>` is `nil`, `int8:-128`, `Nint8:5` (a defined type with underlying int8; `N…` = a type the harness defines,
+`L…` / `Q…` = a defined type of the standard library — json.Number, json.RawMessage, time.Duration, sql.RawBytes, … —
+which, unlike a harness type, a type switch of the library can name), `f32:<hex bits>`,
 `str:<pct-encoded bytes>`, `bytes:…`, `nilbytes`, `bool:true`, `slice:<tag>`, `other:<tag>`.
 Strings and byte slices are percent-encoded (everything but `[A-Za-z0-9._+-]`), floats are bit patterns.
 
@@ -78,7 +80,9 @@ def splitColon (s : String) : String × String :=
 
 def parseHeld (tok : String) : Option Held :=
   let (k, p) := splitColon tok
-  let named := k.startsWith "N"
+  -- N: defined by the harness; L, Q: defined by the standard library. For the model and for the
+  -- specification all of them are "a defined type, not the predeclared one".
+  let named := k.startsWith "N" || k.startsWith "L" || k.startsWith "Q"
   let k := if named then (k.drop 1).toString else k
   match k with
   | "nil" => some .nil
